@@ -153,6 +153,9 @@ func vMustReject(r *Route, st *vRegState) (bool, string) {
 			short += "/" + s.text
 		}
 	}
+	if short == "" {
+		short = "/" // the short form of a root-level optional route is the root itself
+	}
 	if st.registered[text] {
 		return true, "the same route is already registered"
 	}
@@ -215,6 +218,9 @@ func (st *vRegState) record(r *Route) {
 		prefix += "/" + s.text
 	}
 	st.registered[text] = true
+	if short == "" {
+		short = "/"
+	}
 	if optAt >= 0 {
 		st.registered[short] = true
 	}
